@@ -556,6 +556,13 @@ fn load_any(path: &str) -> Result<String, String> {
     }
 }
 
+/// load and drop (both widths are tried, as the command line does)
+fn load_touch(path: &str) {
+    if MergeSkaArray::<u64>::load(path).is_err() {
+        let _ = MergeSkaArray::<u128>::load(path);
+    }
+}
+
 /// as `load_any`, plus a checksum of the file the loaded array saves again: two loads agree on
 /// this string only if EVERY stored field agrees (also the per-k-mer counts no observer prints)
 fn load_any_full(path: &str) -> Result<String, String> {
@@ -604,6 +611,43 @@ fn op_skf<IntT: for<'a> UInt<'a>>(c: &Case, scratch: &str) -> String {
 }
 
 /// `skfaults`: every truncation point and every single-bit flip of a saved file.
+/// A valid file of the same shape as `a` (same k, width, keys, sample count, name lengths) but with
+/// other names and other bases. It is loaded on the same thread before every damaged copy, so that
+/// anything a loader might keep between calls comes from a different file: a damaged file that is
+/// "completed" from left-over state then shows as different content, not as the original.
+fn save_decoy<IntT: for<'a> UInt<'a>>(a: &MergeSkaArray<IntT>, k: usize, rc: bool, path: &str) {
+    let mut rows: HashMap<IntT, Vec<u8>> = a
+        .iter()
+        .map(|(key, cells)| {
+            let c2: Vec<u8> = cells
+                .iter()
+                .map(|b| match *b {
+                    b'A' => b'C',
+                    b'C' => b'A',
+                    b'G' => b'T',
+                    b'T' => b'G',
+                    x => x,
+                })
+                .collect();
+            (key, c2)
+        })
+        .collect();
+    let mut names: Vec<String> = a
+        .names()
+        .iter()
+        .map(|n| {
+            let mut s = n.clone().into_bytes();
+            if !s.is_empty() {
+                s[0] = if s[0] == b'Z' { b'Y' } else { b'Z' };
+            }
+            String::from_utf8(s).unwrap_or_else(|_| "Z".to_string())
+        })
+        .collect();
+    let mut d = MergeSkaDict::new(k, names.len(), rc);
+    d.build_from_array(&mut names, &mut rows);
+    MergeSkaArray::<IntT>::new(&d).save(path).unwrap();
+}
+
 /// Result: counts per outcome class through the real loader, the faults that
 /// were accepted with DIFFERENT content (must be none), and the outcome of
 /// snap's frame decoder for each fault (for the model cross-check).
@@ -615,6 +659,8 @@ fn op_skfaults<IntT: for<'a> UInt<'a>>(c: &Case, scratch: &str) -> String {
     a.save(&path).unwrap();
     let bytes = std::fs::read(&path).unwrap();
     let good = load_any_full(&path).unwrap();
+    let decoy_path = format!("{dir}/decoy.skf");
+    save_decoy(&a, c.usize("k"), c.flag("rc"), &decoy_path);
     let stride = c.usize_or("stride", 1);
     let bad_path = format!("{dir}/bad.skf");
     let (mut rejected, mut same, mut different) = (0usize, 0usize, 0usize);
@@ -622,6 +668,7 @@ fn op_skfaults<IntT: for<'a> UInt<'a>>(c: &Case, scratch: &str) -> String {
     let mut frames: Vec<String> = Vec::new();
     let mut eval = |tag: String, data: &[u8]| {
         std::fs::write(&bad_path, data).unwrap();
+        load_touch(&decoy_path);
         match load_any_full(&bad_path) {
             Err(_) => rejected += 1,
             Ok(s) if s == good => same += 1,
@@ -696,6 +743,8 @@ fn op_skchunks<IntT: for<'a> UInt<'a>>(c: &Case, scratch: &str) -> String {
     a.save(&path).unwrap();
     let bytes = std::fs::read(&path).unwrap();
     let good = load_any_full(&path).unwrap();
+    let decoy_path = format!("{dir}/decoy.skf");
+    save_decoy(&a, k, true, &decoy_path);
     // chunk headers of the snappy frame format: type (1 byte), length (3 bytes LE), data
     let mut headers: Vec<usize> = Vec::new();
     let mut pos = 0usize;
@@ -717,6 +766,7 @@ fn op_skchunks<IntT: for<'a> UInt<'a>>(c: &Case, scratch: &str) -> String {
             for bit in 0..8 {
                 work[h + off] ^= 1 << bit;
                 std::fs::write(&bad_path, &work).unwrap();
+                load_touch(&decoy_path);
                 match load_any_full(&bad_path) {
                     Err(_) => rejected += 1,
                     Ok(s) if s == good => same += 1,
@@ -731,6 +781,21 @@ fn op_skchunks<IntT: for<'a> UInt<'a>>(c: &Case, scratch: &str) -> String {
             }
         }
     }
+    // the file cut at every chunk boundary (a clean end of the compressed stream)
+    for (ci, h) in headers.iter().enumerate() {
+        std::fs::write(&bad_path, &bytes[..*h]).unwrap();
+        load_touch(&decoy_path);
+        match load_any_full(&bad_path) {
+            Err(_) => rejected += 1,
+            Ok(s) if s == good => same += 1,
+            Ok(_) => {
+                different += 1;
+                if diffs.len() < 5 {
+                    diffs.push(format!("cut-before-c{ci}"));
+                }
+            }
+        }
+    }
     // whole data chunks removed (what a skippable type makes of them), one at a time
     for ci in 1..nh {
         let h = headers[ci];
@@ -738,6 +803,7 @@ fn op_skchunks<IntT: for<'a> UInt<'a>>(c: &Case, scratch: &str) -> String {
         let mut cut = bytes[..h].to_vec();
         cut.extend_from_slice(&bytes[end..]);
         std::fs::write(&bad_path, &cut).unwrap();
+        load_touch(&decoy_path);
         match load_any_full(&bad_path) {
             Err(_) => rejected += 1,
             Ok(s) if s == good => same += 1,
